@@ -162,6 +162,9 @@ def run(ctx):
         try:
             build_tree(tree, listname == "full", ctl)
             kw = {"handlers.dir.DirHandler|cachetime": "0"}
+            # a gophermap written on a DOS machine: CR LF line ends, padded fields, an empty trailing field
+            tree.write("dos/gophermap", b"Welcome (DOS line ends)\r\n0Readme\t/README\r\n0 Padded \t inner.txt \r\n1Docs\t/docs\t\r\n0inner.txt\r\n")
+            tree.write("dos/inner.txt", b"inner\n")
             if listname == "full":
                 kw["handlers.ZIP.ZIPHandler|enabled"] = "true"
             if listname == "rootmap":
